@@ -460,6 +460,71 @@ theorem populateWalk_spec (h : WF U W) {idx : Index}
               · exact Or.inr (List.mem_append.mpr (Or.inr (by simp)))
               · exact Or.inr (List.mem_append.mpr (Or.inl hm))
 
+/-- The blocks collected by the `populate` walk are a gap-free stretch of the chain: every
+ancestor-or-self of the head is the head, collected, or at/below the oldest collected block. -/
+theorem populateWalk_chain (h : WF U W) {idx : Index}
+    (hidx : ∀ i b, idx i = some b → U i = some b) (oldest : Int) :
+    ∀ (fuel : Nat) (cur : Block) (acc chron : List Block) (full : Bool), InU U cur →
+      populateWalk idx oldest fuel cur acc = (chron, full) →
+      ∃ pre, chron = pre ++ acc ∧ (∀ b ∈ pre, Anc U b cur) ∧
+        Anc U (pre.head?.getD cur) cur ∧
+        (∀ A, Anc U A cur → A = cur ∨ A ∈ pre ∨ Anc U A (pre.head?.getD cur)) := by
+  intro fuel
+  induction fuel with
+  | zero =>
+    intro cur acc chron full _ hr
+    simp [populateWalk] at hr
+    obtain ⟨rfl, rfl⟩ := hr
+    exact ⟨[], rfl, fun b hb => by simp at hb, Anc.refl _, fun A hA => Or.inr (Or.inr hA)⟩
+  | succ fuel ih =>
+    intro cur acc chron full hcur hr
+    unfold populateWalk at hr
+    by_cases h0 : cur.height = 0
+    · rw [if_pos h0] at hr
+      obtain ⟨rfl, rfl⟩ := Prod.mk.inj hr
+      exact ⟨[], rfl, fun b hb => by simp at hb, Anc.refl _, fun A hA => Or.inr (Or.inr hA)⟩
+    · rw [if_neg h0] at hr
+      cases hi : idx cur.parent with
+      | none =>
+        simp only [hi] at hr
+        obtain ⟨rfl, rfl⟩ := Prod.mk.inj hr
+        exact ⟨[], rfl, fun b hb => by simp at hb, Anc.refl _, fun A hA => Or.inr (Or.inr hA)⟩
+      | some p =>
+        simp only [hi] at hr
+        have hp := hidx _ _ hi
+        have hpU := inU_of_lookup h hp
+        have hpc : Anc U p cur := Anc.step hp (Anc.refl _)
+        by_cases hold : p.ts < oldest
+        · rw [if_pos hold] at hr
+          obtain ⟨rfl, rfl⟩ := Prod.mk.inj hr
+          refine ⟨[p], rfl, fun b hb => ?_, by simpa using hpc, fun A hA => ?_⟩
+          · have : b = p := by simpa using hb
+            subst this; exact hpc
+          · cases hA with
+            | refl => exact Or.inl rfl
+            | step hp2 hA2 =>
+              rw [hp] at hp2; cases hp2
+              exact Or.inr (Or.inr (by simpa using hA2))
+        · rw [if_neg hold] at hr
+          obtain ⟨pre, hch, hanc, hlow, hcov⟩ := ih p (p :: acc) chron full hpU hr
+          have hhead : (pre ++ [p]).head?.getD cur = pre.head?.getD p := by
+            cases pre <;> simp
+          refine ⟨pre ++ [p], by simp [hch], fun b hb => ?_, ?_, fun A hA => ?_⟩
+          · rcases List.mem_append.mp hb with hb | hb
+            · exact Anc.trans (hanc b hb) hpc
+            · have : b = p := by simpa using hb
+              subst this; exact hpc
+          · rw [hhead]; exact Anc.trans hlow hpc
+          · rw [hhead]
+            cases hA with
+            | refl => exact Or.inl rfl
+            | step hp2 hA2 =>
+              rw [hp] at hp2; cases hp2
+              rcases hcov A hA2 with rfl | hm | hlo
+              · exact Or.inr (Or.inl (List.mem_append.mpr (Or.inr (by simp))))
+              · exact Or.inr (Or.inl (List.mem_append.mpr (Or.inl hm)))
+              · exact Or.inr (Or.inr hlo)
+
 /-- `populate` (with or without a full window) followed by `AcceptHistorical` of `hist`
 establishes the invariant at head `H`, provided the two block lists together cover every
 ancestor-or-self of `H` whose timestamp is at least `oldestAllowed H.ts`. -/
